@@ -479,15 +479,15 @@ def _do_op(sim, cat, stores, regs, models, op):
                 ci = bool(stores[d["id"]].getmeta().get("case_insensitive", False))
                 certain = dir_model(d, False)
                 models[r] = {"kind": "dir", "keys": dict(certain), "dir": d["id"]}
-                if ci:
-                    # The store says extensions match case-insensitively (a real OSFS under fs 2.3.1
-                    # does, even on a case-sensitive disk).  Whether 'x.GB' is a plasmid file of a
-                    # registry opened for 'gb' is then left open: a registry may follow the store's
-                    # rule or match extensions itself.  Either way it must be coherent: the first
-                    # fault-free observation fixes the key set and everything must agree with it.
-                    wide = dir_model(d, True)
-                    if set(wide) != set(certain):
-                        models[r]["lo"], models[r]["hi"] = dict(certain), wide
+                # Whether 'x.GB' is a plasmid file of a registry opened for 'gb' is left open on every
+                # store: a registry may follow the store's own matching rule (a real OSFS under fs
+                # 2.3.1 declares itself case-insensitive even on a case-sensitive disk, a MemoryFS
+                # does not) or match extensions itself, case-sensitively or not.  Whatever it does, it
+                # must be coherent: the first fault-free observation of its key set fixes the model
+                # and everything afterwards must agree with it.
+                wide = dir_model(d, True)
+                if set(wide) != set(certain):
+                    models[r]["lo"], models[r]["hi"] = dict(certain), wide
                 ev["result"] = "ok"
             elif k == "embedded":
                 mod, cls, _ = EMBEDDED[op["kind"]]
@@ -629,13 +629,15 @@ def _do_op(sim, cat, stores, regs, models, op):
                 elif k == "contains":
                     ans = key in reg
                     ev["result"] = bool(ans)
-                    if present is not None and bool(ans) != present:
+                    if present is not None and bool(ans) != present and not (sim.fired and present is True):
                         raise Fail("C20.absent" if not present else "C20.lookup", "%r in registry is %s, iteration says %s" % (key, ans, present), present, bool(ans))
                 else:
                     sentinel = object()
                     ans = reg.get(key, sentinel)
                     ev["result"] = "default" if ans is sentinel else "item"
-                    if present is True:
+                    if present is True and ans is sentinel and sim.fired:
+                        pass  # Mapping.get/in are built on __getitem__, which under a fault may raise KeyError
+                    elif present is True:
                         if ans is sentinel:
                             raise Fail("C20.lookup", "get(%r) returns the default for a present key" % (key,))
                         ev["result"] = _check_item(ans, key, _model_src(model, key))
@@ -1281,3 +1283,7 @@ def describe(prop):
 
 
 STATE_MEASURE = 'distinct (operation, key class, fault fired?, oracle failed?, any fault seen earlier in the run?) tuples'
+
+
+EXPECTED_STATS = {"C20": ["seam:archive-open", "seam:scandir", "seam:openbin", "short-read:archive-read", "short-read:read",
+                          "fired:archive-read", "fired:archive-open", "fired:scandir", "fired:scandir-entry", "fired:openbin", "fired:read", "real-osfs-directory"]}
